@@ -33,7 +33,7 @@ class C04(PoolScenario):
                    "(the document stores variance, the object variance*entries)",
                    "torn / short file contents must make fromJsonFile raise (it is json's parser that notices)"]
     expected_faults = ["restore", "torn_write", "short_read"]
-    expected_probes = ["empty_sparse_checkpoint", "nonfinite_in_document", "negative_sparse_index", "lockstep_ops"]
+    expected_probes = ["empty_sparse_checkpoint", "nonfinite_in_document", "negative_sparse_index", "lockstep_ops", "replica_merged_then_reloaded"]
     spec_opts = {"p_default": 0.3}
     record_opts = {"no_none": False, "numeric_cuts": False, "big_ints": 0.02}
 
@@ -57,9 +57,9 @@ class C04(PoolScenario):
             if not pairs:
                 return []
             h, t = s.pick(pairs)
-            what = s.pick(["add_other", "other_add", "mul", "zero", "copy", "recheck", "add_self"])
+            what = s.pick(["add_other", "other_add", "mul", "zero", "copy", "recheck", "add_self", "iadd_then_reload"])
             st.update(orig=h, replica=t, what=what)
-            if what in ("add_other", "other_add"):
+            if what in ("add_other", "other_add", "iadd_then_reload"):
                 cands = [x for x in ab.handles(k=ab.objs[h]["k"])]
                 st["other"] = s.pick(cands)
             if what == "mul":
@@ -114,7 +114,8 @@ class C04(PoolScenario):
             o2 = call(obj.toJsonString)
             if not o2.ok:
                 raise self.violation(obj.name, "toJsonString", "exception:%s" % type(o2.exc).__name__, o2.describe(), si)
-            r = call(hg.Factory.fromJsonString, o2.value)
+            # both entry points that take a text
+            r = call(hg.Factory.fromJsonString, o2.value) if si % 2 else call(hg.Factory.fromJson, o2.value)
         else:
             name = "ckpt-%d-%s.json" % (si, tag)
             o2 = call(obj.toJsonFile, name)
@@ -217,6 +218,24 @@ class C04(PoolScenario):
             if what in ("add_other", "other_add") and other is None:
                 return None, set()
             f = specmod.dec_float(st["f"]) if "f" in st else None
+            if what == "iadd_then_reload":
+                # the replica is a container like any other: something is merged into it in place.  The document it came
+                # from has not changed, so loading that text once more must give the state that was written
+                if other is None:
+                    return None, set()
+
+                import histogrammar as hg
+
+                def merged():
+                    text = a.toJsonString()
+                    y = hg.Factory.fromJsonString(text) if si % 2 else hg.Factory.fromJson(text)  # a private replica
+                    y += other
+                    return y
+
+                if call(merged).ok:
+                    w.bump("probe_replica_merged_then_reloaded")
+                self._checkpoint(w, st, si, a, "jsonstr", "again", w.meta[st["orig"]].get("cover"), w.meta[st["orig"]]["k"])
+                return "done", set()
 
             def do(x):
                 if what == "add_other":
